@@ -612,3 +612,111 @@ Example nv_cors :
   cors [B "a"; B "b"] (B "a!b") = None /\ cors [B "*"] [] = None /\
   cors [B "http://a/"] (B "http://a") = None.
 Proof. vm_compute. repeat split; reflexivity. Qed.
+
+(* ------------------------------------------------------------------ the whole request: method and headers *)
+
+Lemma header_get_in_values name hs :
+  header_get name hs <> [] -> In (header_get name hs) (header_values name hs).
+Proof.
+  unfold header_values. induction hs as [|h r IH]; simpl; [congruence|].
+  destruct (name_eqb (fst h) name); simpl; [left; reflexivity|exact IH].
+Qed.
+
+Lemma allowedb_iff wl o : allowedb wl o = true <-> o <> [] /\ (In o wl \/ In (B "*") wl).
+Proof.
+  unfold allowedb. rewrite andb_true_iff, orb_true_iff, !mem_In.
+  destruct o as [|a r]; simpl.
+  - split; intros [H1 H2]; [discriminate|congruence].
+  - split; intros [H1 H2]; (split; [|exact H2]); [discriminate|reflexivity].
+Qed.
+
+(* the Access-Control-* headers of the answer are none at all, or exactly one
+   Access-Control-Allow-Origin with exactly one value: the request's (first)
+   Origin, non-empty and whitelisted - for EVERY method and EVERY list of
+   header lines *)
+Theorem resp_ac_only_when_whitelisted m wl meth hs :
+  resp_ac m wl meth hs = [] \/
+  (let o := header_get h_origin hs in
+   resp_ac m wl meth hs = [(acao_name, [o])] /\ m = MuxPass /\ o <> [] /\ (In o wl \/ In (B "*") wl)).
+Proof.
+  unfold resp_ac. destruct (acao_at m wl (header_get h_origin hs)) as [v|] eqn:E; [right|left; reflexivity].
+  pose proof (acao_only_when_whitelisted _ _ _ _ E) as [-> [Hne Hin]].
+  destruct m; simpl in E; try discriminate. repeat split; assumption.
+Qed.
+
+(* ... and whenever the handler runs on a whitelisted Origin the header is there *)
+Theorem resp_ac_complete wl meth hs :
+  allowedb wl (header_get h_origin hs) = true ->
+  resp_ac MuxPass wl meth hs = [(acao_name, [header_get h_origin hs])].
+Proof.
+  intros H. unfold resp_ac, acao_at, cors. unfold allowedb in H. rewrite H. reflexivity.
+Qed.
+
+(* the CORS decision depends on the Origin and the whitelist ONLY: two
+   requests with the same first Origin line get the same Access-Control-*
+   headers, whatever their methods and their other header lines *)
+Theorem resp_ac_origin_only m wl meth meth' hs hs' :
+  header_get h_origin hs = header_get h_origin hs' ->
+  resp_ac m wl meth hs = resp_ac m wl meth' hs'.
+Proof. unfold resp_ac. intros ->. reflexivity. Qed.
+
+(* M meets S (the executable clause that the judge evaluates on Go's headers) *)
+Theorem resp_ac_meets_spec m wl meth hs :
+  ac_spec wl (header_values h_origin hs) (resp_ac m wl meth hs) = true.
+Proof.
+  destruct (resp_ac_only_when_whitelisted m wl meth hs) as [->|[-> [_ [Hne Hin]]]]; [reflexivity|].
+  cbn [ac_spec forallb fst snd]. replace (name_eqb acao_name acao_name) with true by (symmetry; apply beqb_refl).
+  rewrite andb_true_r, andb_true_iff. split.
+  - apply mem_In, header_get_in_values, Hne.
+  - apply allowedb_iff. split; assumption.
+Qed.
+
+(* S is what the property says: an accepted list of headers carries no
+   Access-Control-* header at all unless some Origin of the request is
+   whitelisted, and an accepted Access-Control-Allow-Origin names one *)
+Theorem ac_spec_sound wl origins acs :
+  ac_spec wl origins acs = true ->
+  (acs <> [] -> exists o, In o origins /\ o <> [] /\ (In o wl \/ In (B "*") wl)) /\
+  (forall n vs, In (n, vs) acs -> name_eqb n acao_name = true ->
+     exists o, vs = [o] /\ In o origins /\ o <> [] /\ (In o wl \/ In (B "*") wl)).
+Proof.
+  unfold ac_spec. rewrite forallb_forall. intros H. split.
+  - destruct acs as [|h r]; [congruence|]. intros _. specialize (H h (or_introl eq_refl)).
+    destruct (name_eqb (fst h) acao_name).
+    + destruct (snd h) as [|v [|? ?]]; try discriminate. apply andb_true_iff in H as [H1 H2].
+      exists v. split; [apply mem_In, H1|apply allowedb_iff, H2].
+    + apply existsb_exists in H as [o [Ho Ha]]. exists o. split; [exact Ho|apply allowedb_iff, Ha].
+  - intros n vs Hin Hn. specialize (H _ Hin). cbn [fst snd] in H. rewrite Hn in H.
+    destruct vs as [|v [|? ?]]; try discriminate. apply andb_true_iff in H as [H1 H2].
+    exists v. split; [reflexivity|]. split; [apply mem_In, H1|apply allowedb_iff, H2].
+Qed.
+
+(* the body that goes out is the file's, or nothing (HEAD) *)
+Theorem sent_body_content meth a b :
+  sent_body meth a = Some b -> b = [] \/ content a = Some b.
+Proof.
+  destruct a; simpl; try discriminate. destruct (beqb meth m_head); intros H; inversion H; auto.
+Qed.
+
+(* a handler that answers preflights itself and writes the Origin there with
+   Set is refuted by S: foreign Origin, and no Origin at all *)
+Theorem resp_ac_preflight_refuted :
+  (let hs := [(B "Origin", B "https://evil.test"); (B "Access-Control-Request-Method", B "GET")] in
+   ac_spec [B "http://a.test"] (header_values h_origin hs)
+           (resp_ac_preflight MuxPass [B "http://a.test"] (B "OPTIONS") hs) = false /\
+   ac_spec [B "http://a.test"] (header_values h_origin hs)
+           (resp_ac MuxPass [B "http://a.test"] (B "OPTIONS") hs) = true) /\
+  (let hs := [(B "access-control-request-method", B "PUT")] in
+   ac_spec [B "*"] (header_values h_origin hs) (resp_ac_preflight MuxPass [B "*"] (B "OPTIONS") hs) = false).
+Proof. vm_compute. repeat split; reflexivity. Qed.
+
+Example nv_resp_ac :
+  resp_ac MuxPass [B "http://a"] (B "OPTIONS")
+          [(B "Accept", B "*/*"); (B "oRiGiN", B "http://a"); (B "Origin", B "http://b")]
+    = [(acao_name, [B "http://a"])] /\
+  resp_ac MuxPass [B "http://a"] (B "DELETE") [(B "Origin", B "http://b"); (B "Origin", B "http://a")] = [] /\
+  resp_ac MuxRedirect [B "*"] (B "GET") [(B "Origin", B "http://b")] = [] /\
+  header_values h_origin [(B "ORIGIN", B "x"); (B "Range", B "bytes=0-"); (B "origin", B "y")] = [B "x"; B "y"] /\
+  sent_body (B "HEAD") (File (B "abc")) = Some [] /\ sent_body (B "POST") (File (B "abc")) = Some (B "abc") /\
+  sent_body (B "head") (File (B "abc")) = Some (B "abc") /\ sent_body (B "HEAD") NotFound = None.
+Proof. vm_compute. repeat split; reflexivity. Qed.
